@@ -82,6 +82,8 @@ def check(ctx, rep):
                 rule, why = loc_rule(s)
         elif kind == "panic_fmt" and FROM_SIGNED.match(owner):
             rule, why = "D-PRE", "debug_assert on a negative component: outside the input domain of the property (precondition)"
+        if rule is None and kind == "assert" and s["msg"] == "Overflow" and const_arith_is_safe(prog, s):
+            rule, why = "D-CONST", "arithmetic on two constants that does not overflow"
         if rule is None:
             rep.fail("INVENTORY", "%s" % site_key(s), "undischarged panic site: %s %s%s" % (
                 kind, s["detail"], (" — " + why) if why else ""), where=where)
@@ -97,6 +99,27 @@ def check(ctx, rep):
 
 
 E_ENTRIES = ("Version::parse", "range::Range::parse")
+
+
+def const_arith_is_safe(prog, s):
+    """an overflow assertion whose checked operation has two constant integer operands is evaluated here"""
+    body = prog.bodies[s["owner"]]
+    bb = body["blocks"][s["bb"]]
+    for st in reversed(bb["stmts"]):
+        if st["k"] == "assign" and st["rv"].get("k") == "binop" and st["rv"]["op"].endswith("WithOverflow"):
+            a, b = st["rv"]["a"].get("const"), st["rv"]["b"].get("const")
+            if not (a and b and a.get("kind") == "int" and b.get("kind") == "int"):
+                return False
+            x, y = int(a["v"]), int(b["v"])
+            t = prog.types[st["rv"]["ty"]]
+            bits, signed = t.get("bits", 64), t.get("signed", False)
+            op = st["rv"]["op"]
+            r = x + y if op.startswith("Add") else (x - y if op.startswith("Sub") else (x * y if op.startswith("Mul") else None))
+            if r is None:
+                return False
+            lo, hi = (-(1 << (bits - 1)), (1 << (bits - 1)) - 1) if signed else (0, (1 << bits) - 1)
+            return lo <= r <= hi
+    return False
 
 
 def stored_component_plus_one(prog, owner, s):
